@@ -360,6 +360,11 @@ def verify_function(repo: Repo, registry: Registry, con: Contract, prop: str, sp
     ctx = Ctx(repo, registry, prop)
     ctx.fn_label = label
     ctx.check_safe = con.check_safe
+    if not con.check_safe:
+        ctx.note(f'ASSUMED (check_safe=False): implicit exceptions of {label} (None dereference, index / key errors, division by zero) '
+                 f'are assumed not to occur, not proved')
+    if not con.check_frame:
+        ctx.note(f'NOT CHECKED (check_frame=False): the frame (what {label} leaves unchanged) is not an obligation')
     ctx.nla_uf = con.nla_uf
     ctx.specs = specs
     ex = Executor(ctx)
